@@ -10,7 +10,8 @@ import math
 import numpy as np
 from hypothesis import strategies as st
 
-from ..common import Outcome, Violation, exc_violation, guarded
+from ..common import (CallTimeout, Outcome, Violation, exc_violation,
+                      guarded)
 
 PROPERTY_ID = "C04"
 TECHNIQUE = ("Hypothesis-generated adversarial utility streams x budgets x "
@@ -454,6 +455,10 @@ def run_case(case):
             start += c
 
     ok, r = guarded(drive)
+    if not ok and isinstance(r, CallTimeout):
+        # the whole stream runs under one time bound; C04 makes no
+        # termination claim, so a time-out is inconclusive, never a verdict
+        return Outcome([], False, labels + ["time_budget_inconclusive"])
     if not ok:
         c = progress["size"]
         seg = util[progress["start"]:progress["start"] + c]
